@@ -206,6 +206,12 @@ func (ex *Exec) evalUnary(st *State, n *ast.UnaryExpr) Val {
 			st.store[c] = v
 			return &RefV{Cell: c}
 		}
+		if id, ok := n.X.(*ast.Ident); ok {
+			if v, ok := ex.info.Uses[id].(*types.Var); ok && v.Pkg() != nil && v.Parent() == v.Pkg().Scope() {
+				ex.globalVar(st, v)
+				return &RefV{Cell: globalCells[v]}
+			}
+		}
 		return ex.lvalue(st, n.X)
 	case token.ARROW:
 		// channel receive: modelled by ghost state on the channel object (see jobs contracts)
@@ -669,7 +675,12 @@ func (ex *Exec) abstractTable(st *State, k *Kind, dims []int, name string) Val {
 		for i := range vs {
 			vs[i] = build(kk.Elem, d+1, Select(base, IntLit(int64(i))))
 		}
-		return mkVec(kk.Elem, vs)
+		r := mkVec(kk.Elem, vs)
+		if kk.Elem.Elem != nil && kk.Elem.Elem.K != "slice" && d+1 < len(dims) && dims[d+1] >= 0 {
+			r.Base = base
+			r.BaseLens = ConstArr(SArrInt, IntLit(int64(dims[d+1])))
+		}
+		return r
 	}
 	var sortFor func(kk *Kind) *Sort
 	sortFor = func(kk *Kind) *Sort {
